@@ -36,8 +36,13 @@ EFFECT_FREE_CALLS = {"builtins.print"}
 class Analysis:
     """Shared context: program, resolver, per-function CFG / reaching definitions."""
 
-    def __init__(self, root: str, check_floor=True):
+    def __init__(self, root: str, check_floor=True, normalize_helpers=True):
         self.prog = Program(root, check_floor=check_floor)
+        kf = os.path.join(os.path.dirname(os.path.abspath(__file__)), "known_functions.txt")
+        self.known_functions = set(open(kf).read().split()) if os.path.exists(kf) else set()
+        # helpers that are not part of the reference decomposition are expanded in place before anything is analysed
+        from .normalize import normalize
+        self.norm = normalize(self.prog, Resolver(self.prog), self.known_functions if normalize_helpers else set())
         self.res = Resolver(self.prog)
         self._cfg: Dict[str, CFG] = {}
         self._rd: Dict[str, ReachingDefs] = {}
